@@ -16,6 +16,11 @@
       pointer stored back as ptr+1); at 2048 the batch is replaced by the next
       2048 numbers of numba's generator (compared with the reference stream
       after the same seed), two consecutive refills differ, entry 0 is consumed.
+(v)   bulk adds with multiplicities 2^32-1 .. 2^40 on quickly saturating sketches keep
+      the lower bound and the element count.
+(vi)  two sketches alive in one process never share or overwrite each other's draws.
+(vii) from every start value in the reserved range, bulk adds that end at or below
+      num_reserved+1 are exact under worst-case draws (7 configurations).
 """
 import math
 import struct
@@ -255,6 +260,99 @@ def pointer_states(rep):
     return n
 
 
+# ---------------------------------------------------------------- (v), (vi)
+def huge_multiplicities(rep):
+    """(v) one bulk add with a multiplicity at / beyond 2^32 on a sketch whose ceiling is
+    reached quickly: the estimate must still be >= min(true, num_reserved+1) (it is in fact
+    the ceiling) and n_added() must grow by the multiplicity."""
+    seed_fn, _ = jit_helpers()
+    n = 0
+    for kind, args in (("log8", [2, 2, 1000, 15]), ("log16", [2, 2, 100000, 1023]),
+                       ("log8", [1, 1, 300, 250])):
+        for v in (65536, 3 * 65536 + 1, 2**31, 2**32 - 1, 2**32, 2**32 + 3, 2**33 + 1, 2**40):
+            sk = SK.make(kind, *args)
+            seed_fn(rep.seed + 11)
+            sk.rand_nums[:] = ADV
+            sk.rand_ptr = 0
+            sk.add(b"bulk", v)
+            est = float(sk.query(b"bulk"))
+            n += 1
+            lo = min(v, int(sk.num_reserved) + 1)
+            if est < lo:
+                rep.violation({"part": "huge", "kind_": kind, "args": args, "v": v},
+                              f"{kind}{args}: after add(key, {v}) the estimate is {est}, below "
+                              f"min(true, num_reserved+1) = {lo}")
+            if int(sk.n_added()) != v:
+                rep.violation({"part": "huge", "kind_": kind, "args": args, "v": v},
+                              f"{kind}{args}: add(key, {v}) changed n_added() by {int(sk.n_added())}")
+            rep.nontrivial(("huge", kind, v))
+    return n
+
+
+def reserved_bulk(rep):
+    """(vii) a bulk add that stays inside the reserved range is exact whatever the draws:
+    from EVERY start value c0 <= num_reserved, add(key, num_reserved+1-c0) with every draw
+    equal to the largest double below 1 must end exactly at num_reserved+1; likewise the
+    partial steps c0 -> num_reserved and c0 -> c0+2."""
+    n = 0
+    stay = np.nextafter(1.0, 0.0)
+    for kind, args in (("log16", [1, 1]), ("log16", [1, 1, 10**6, 2]), ("log8", [1, 1]),
+                       ("log8", [1, 1, 10**6, 50]), ("log8", [1, 1, 1000, 100]),
+                       ("log8", [1, 1, 2**40, 200]), ("log16", [1, 1, 2**40, 5000])):
+        sk = SK.make(kind, *args)
+        nr = int(sk.num_reserved)
+        for c0 in range(0, nr + 1):
+            for v in {nr + 1 - c0, max(0, nr - c0), min(2, nr + 1 - c0)}:
+                sk.cms[0, 0] = c0
+                sk.rand_nums[:] = stay
+                sk.rand_ptr = 0
+                sk.add(b"k", v)
+                n += 1
+                got = int(sk.cms[0, 0])
+                if got != c0 + v:
+                    rep.violation({"part": "bulk", "kind_": kind, "args": args, "c0": c0, "v": v},
+                                  f"{kind}{args}: counter {c0}, add(key, {v}) with draws just below "
+                                  f"1 gives {got}; inside the reserved range (<= num_reserved+1 = "
+                                  f"{nr+1}) it must be exactly {c0+v}")
+        rep.nontrivial(("bulk", kind, tuple(args)))
+    return n
+
+
+def two_live_sketches(rep):
+    """(vi) the draws of one sketch are not the draws of another: two sketches alive in one
+    process have separate batches (constructor batches differ, a refill of one does not
+    touch the other's, consecutive refills of different sketches are consecutive blocks)."""
+    seed_fn, draw_fn = jit_helpers()
+    n = 0
+    for ka, kb in (("log8", "log8"), ("log16", "log16"), ("log8", "log16")):
+        a = SK.make(ka, 1, 1, 1000 if ka == "log8" else 10**6, 2)
+        b = SK.make(kb, 1, 1, 1000 if kb == "log8" else 10**6, 2)
+        case = {"part": "twolive", "ka": ka, "kb": kb}
+        n += 1
+        if np.shares_memory(a.rand_nums, b.rand_nums):
+            rep.violation(case, f"two live sketches ({ka}, {kb}) share one batch of random draws")
+            continue
+        if np.array_equal(a.rand_nums, b.rand_nums):
+            rep.violation(case, f"two new sketches ({ka}, {kb}) start with identical draw batches")
+        s = rep.seed + 5
+        seed_fn(s)
+        ref = draw_fn(4096)
+        seed_fn(s)
+        for sk in (a, b):
+            sk.cms[0, 0] = 40
+            sk.rand_ptr = 2048
+        a.add(b"k", 1)
+        a1 = a.rand_nums.copy()
+        b.add(b"k", 1)
+        if not np.array_equal(a.rand_nums, a1):
+            rep.violation(case, f"a refill of one sketch ({kb}) overwrote the draws of another ({ka})")
+        elif not (np.array_equal(a1, ref[:2048]) and np.array_equal(b.rand_nums, ref[2048:])):
+            rep.violation(case, f"refills of two live sketches ({ka}, {kb}) are not consecutive "
+                                f"blocks of the generator (draws recycled between sketches)")
+        rep.nontrivial(("twolive", ka, kb))
+    return n
+
+
 # ---------------------------------------------------------------- (iii) lower bound
 def lower_configs(tier):
     out = []
@@ -303,7 +401,7 @@ def run(rep):
             case["part"] = "lower"
             rep.violations.append((case, msg))
         merge_stats(rep, "lower-" + C.label(cfg), cfg, st)
-    n = pointer_states(rep)
+    n = pointer_states(rep) + huge_multiplicities(rep) + two_live_sketches(rep) + reserved_bulk(rep)
     rep.evals(n)
     rep.add("transitions", n)
     rep.add("traces_validated_against_impl", n)
@@ -340,6 +438,17 @@ def replay(case):
         p, dec, _ = transition_law(sub, case["kind_"], case["mc"], case["nr"])
         sub.violations = []
         chain(sub, case["kind_"], case["mc"], case["nr"], p, dec, [case["N"]])
+    elif part == "huge":
+        huge_multiplicities(sub)
+        sub.violations = [(c, m) for c, m in sub.violations if c.get("v") == case["v"]
+                          and c.get("kind_") == case["kind_"]]
+    elif part == "twolive":
+        two_live_sketches(sub)
+    elif part == "bulk":
+        reserved_bulk(sub)
+        sub.violations = [(c, m) for c, m in sub.violations
+                          if (c.get("kind_"), c.get("args"), c.get("c0"), c.get("v")) ==
+                          (case["kind_"], case["args"], case["c0"], case["v"])]
     else:
         pointer_states(sub)
         want = {k: case[k] for k in ("part", "kind_", "entry")}
